@@ -74,6 +74,18 @@ func (f *FSMSnapshot) Persist(sink raft.SnapshotSink) (retError error) {
 		return err
 	}
 	if f.Finalizer != nil {
+		// The snapshot must be finalised in the snapshot store before the
+		// Finalizer publishes the clean-snapshot fingerprint of the database
+		// file. Raft closes the sink only after Persist returns; if the process
+		// died in between, the fingerprint would already vouch for a database
+		// file that is ahead of the newest snapshot in the store, and the next
+		// start would take the fast path with the older snapshot's index and
+		// apply log entries a second time. Close is idempotent, so Raft's own
+		// Close (or Cancel) afterwards is a no-op.
+		if err := sink.Close(); err != nil {
+			fsmSnapshotErrLogger.Printf("failed to close %s snapshot sink %s: %v", f.Type, sink.ID(), err)
+			return err
+		}
 		return f.Finalizer()
 	}
 	return nil
